@@ -5,7 +5,8 @@
     bytes -> JSON -> transaction.  Statements only. *)
 From Coq Require Import List NArith ZArith Bool.
 From HDW Require Import Lib.Outcome Lib.Bytes Model.Json Model.JsonText Model.Tx Proofs.JsonTextProofs.
-From HDW Require Props.C06.
+From HDW Require Import Model.Eip712Values Spec.Eip712ValueSpec Proofs.Eip712ValueInst.
+From HDW Require Props.C06 Props.C17.
 Import ListNotations.
 Open Scope N_scope.
 
@@ -31,3 +32,12 @@ Proof.
   intros rnd s. apply graceful_bind; [apply json_of_text_total|]. intros j _. apply C06.C06_total.
 Qed.
 Print Assumptions C17j_transaction_text_total.
+
+(** bytes -> typed data: the three digests or an ordinary error, for every byte string *)
+Theorem C17j_typed_data_text_total : forall rnd (s : bytes),
+  graceful (bind (json_of_text rnd s) (compute_p real_prims)).
+Proof.
+  intros rnd s. apply graceful_bind; [apply json_of_text_total|]. intros j _.
+  exact (proj2 (proj2 C17.C17_total_typed_data) j).
+Qed.
+Print Assumptions C17j_typed_data_text_total.
